@@ -20,22 +20,12 @@ type site struct {
 	Where string // syntactic site: action:<type>:<member> | router:operand | router:case-arguments | wait:dial:phone
 }
 
-// where contact fields live in the expression context (docs: context "contact.fields", "fields", and the same
-// under parent / child)
-var fieldHomes = [][]string{{"fields"}, {"contact", "fields"}, {"parent", "fields"}, {"parent", "contact", "fields"},
-	{"child", "fields"}, {"child", "contact", "fields"}}
-
+// the context paths under which contact fields / globals live come from the engine's own context (homes.go);
+// the home is part of the site, so that a path inspection does not know gets a class of its own
 func templateSites(tpl, where string) []site {
 	var out []site
-	for _, p := range templatePaths(tpl) {
-		if len(p) < 2 {
-			continue
-		}
-		if strings.EqualFold(p[0], "globals") {
-			out = append(out, site{Ref{Kind: "global", ID: strings.ToLower(p[1])}, where})
-			continue
-		}
-		for _, h := range fieldHomes {
+	match := func(p []string, homes [][]string, kind string) {
+		for _, h := range homes {
 			if len(p) != len(h)+1 {
 				continue
 			}
@@ -46,9 +36,13 @@ func templateSites(tpl, where string) []site {
 				}
 			}
 			if ok {
-				out = append(out, site{Ref{Kind: "field", ID: strings.ToLower(p[len(h)])}, where})
+				out = append(out, site{Ref{Kind: kind, ID: strings.ToLower(p[len(h)])}, where + "@" + strings.Join(h, ".")})
 			}
 		}
+	}
+	for _, p := range templatePaths(tpl) {
+		match(p, discoveredGlobalHomes, "global")
+		match(p, discoveredFieldHomes, "field")
 	}
 	return out
 }
